@@ -7,7 +7,7 @@ import vlib
 ID = "C20"
 THEOREMS = ["C20_roundtrip", "C20_target_roundtrip", "C20_root_refuted", "C20_root_only_exception",
             "C20_parse_never_unreachable", "C20_overflow_panics", "C20_no_panic_in_range",
-            "C20_render_agree", "C20_agree_short", "C20_template_refuted", "C20_roundtrip_nonvacuous"]
+            "C20_render_agree", "C20_agree", "C20_agree_short", "C20_template_refuted", "C20_roundtrip_nonvacuous"]
 IMPORTS = ("From Coq Require Import List NArith ZArith String.\n"
            "From VRL Require Import Base.Bytes Base.Value Base.Lit Model.PathText Model.VrlPathLex Corr.C20.\n"
            "Local Open Scope string_scope.")
@@ -19,10 +19,11 @@ MANIFEST = {
     "text": "Closed Coq theorems: for every non-empty value path with isize indices parse(render p) = Ok p; the same for "
             "event paths (root included) and non-root metadata paths; the value root and the metadata root are exactly "
             "the paths that do not round-trip (refuted with witnesses = known finding); the parser panics only on index "
-            "overflow. The VRL-source half is a hand model of the lexer/grammar path fragment (vrl_path): proved to agree "
-            "with the path-string parser on every rendered path whose fields VRL can spell and on all texts up to length 4 "
-            "over the path alphabet; tied to the real lexer/LALRPOP parser only by the correspondence run. Disagreement on "
-            "quoted fields containing `{{` (template syntax) is a recorded finding.",
+            "overflow. The VRL-source half is a hand model of the lexer/grammar path fragment (vrl_path): proved, for every "
+            "text free of template syntax, that when both readers accept they return the same target path (C20_agree), "
+            "that both read every rendered spellable path as that path, and re-checked by kernel evaluation on all 5.2M texts "
+            "of <= 6 symbols over the path alphabet; inside the template-syntax class the agreement is refuted (recorded "
+            "finding). The VRL model is tied to the real lexer/LALRPOP parser only by the correspondence run (partial).",
     "note": "Trusted: Coq kernel + vm_compute, the hand models Model/PathText.v and Model/VrlPathLex.v (tied by the "
             "correspondence run only), harness JSON codec, Python generator. Text = list of units, valid for UTF-8 bytes "
             "and for code points (all distinguished characters are ASCII). VRL side partial: scope predicate vrl_modelled "
